@@ -10,8 +10,9 @@ ASSUMPTIONS = [
     "Theorems are about the Lean model of Serializer / Deserializer / Tree::walk / Tree::nullary,unary,binary "
     "(LibfiveModel/Serialize.lean): byte-level, for every archive (any number of shapes, any byte strings, shared "
     "roots, shared sub-expressions). Constants are bit patterns; load-time constant folding is an uninterpreted parameter.",
-    "The format has no remap/apply: the model serialises flattened DAGs; that the real serializer writes flatten(t) for a "
-    "tree with remap/apply is checked by the run (it does not: known finding), flatten itself is C07.",
+    "The format has no remap/apply: the model takes the flattening as a parameter (serializeFlat); the harness supplies "
+    "t.flatten() and the run checks that the real serializer writes exactly the model's bytes for it; that flatten "
+    "preserves the function is C07 (flatten_sound).",
     "Tie: (T) opcode table, args/commutative/idempotent switches, END_OF_ITEM, tags regenerated from the source on every "
     "run and compared with the pinned tables by `decide`; (C) real walk order, real bytes, real loaded archive, cerr "
     "classes and exceptions compared with the model on generated archives and on malformed streams.",
@@ -21,9 +22,6 @@ ASSUMPTIONS = [
     "stops with `indeterminate` and only the messages printed before that point are compared.",
 ]
 
-KEY_VARS = "C08:var-section-quote-consumed"
-KEY_REMAP = "C08:remap-walk-dangling"
-KEY_REMAP_ROOT = "C08:remap-root-already-stored"
 
 
 def split_cases(text):
@@ -47,19 +45,6 @@ def prog_cases(lines):
         if cur is not None:
             cur.append(ln)
     return out
-
-
-def tag_differs(verdict):
-    """first differing byte of a `MISMATCH bytes … model= <hex> real= <hex>` verdict is a shape tag: 't' vs 'T'"""
-    w = verdict.split()
-    try:
-        m, r = w[w.index("model=") + 1], w[w.index("real=") + 1]
-    except (ValueError, IndexError):
-        return False
-    for i in range(0, min(len(m), len(r)), 2):
-        if m[i:i + 2] != r[i:i + 2]:
-            return m[i:i + 2] == "74" and r[i:i + 2] == "54"
-    return False
 
 
 def is_nan_bits(h):
@@ -171,7 +156,7 @@ def run(rep, tier, seed, replay=None):
         return rep.finish("proof", common.proof_coverage(aud, {"evaluations": 0}), ASSUMPTIONS)
     obs = split_cases(r.stdout)
     inp = prog_cases(lines)
-    verdicts = common.run_driver("c08", r.stdout, timeout=600).splitlines()
+    verdicts = common.run_driver("c08", r.stdout, timeout=2400).splitlines()
     vby = {}
     for v in verdicts:
         w = v.split()
@@ -179,9 +164,9 @@ def run(rep, tier, seed, replay=None):
             vby.setdefault(w[w.index("case") + 1], []).append(v)
 
     stats = {"cases": len(inp), "plain": 0, "with_named_vars": 0, "with_remap": 0, "oracle_evals": 0,
-             "oracle_fail_vars": 0, "oracle_fail_remap": 0, "canon_true": 0, "shapes": 0, "tag_t": 0,
+             "oracle_fail_vars": 0, "oracle_fail_remap": 0, "oracle_fail_plain": 0, "canon_true": 0, "shapes": 0, "tag_t": 0,
              "bytes_total": 0, "verdicts_ok": 0, "mismatch": 0, "skipped": 0, "remap_bytes_agree": 0,
-             "remap_bytes_differ_loads_ok": 0, "hyp_canon_plain": 0, "skipped_big": 0}
+             "hyp_canon_plain": 0, "skipped_big": 0}
     good_streams = []
     for case, ob in obs.items():
         vs = vby.get(case, [])
@@ -200,7 +185,7 @@ def run(rep, tier, seed, replay=None):
         stats["shapes"] += sum(1 for l in ob if l.startswith("shape "))
         stats["oracle_evals"] += sum(1 for l in ob if l.startswith("eval "))
         stats["canon_true"] += any(v.startswith("hyp") and " canon true" in v for v in vs)
-        stats["hyp_canon_plain"] += (not has_remap and not named and any(v.startswith("hyp") and " canonTrees true" in v for v in vs))
+        stats["hyp_canon_plain"] += (not has_remap and not named and any(v.startswith("hyp") and " canon true" in v for v in vs))
         b = [l.split()[1] for l in ob if l.startswith("bytes ")]
         if b:
             raw = b"" if b[0] == "-" else bytes.fromhex(b[0])
@@ -215,33 +200,14 @@ def run(rep, tier, seed, replay=None):
                     "failures": fails[:10], "verdicts": [v[:400] for v in vs],
                     "how": "write the program lines to a file and run .build/plain/harness/serial <file>"}
         if fails:
-            # attribute to a recorded mechanism only when the model (which reproduces the reader as written)
-            # agrees with what the loader did, and the failure is of the kind that mechanism produces
-            if has_remap and not load_mism and bytes_mism:
-                stats["oracle_fail_remap"] += 1
-                if tag_differs(bytes_mism[0]):
-                    rep.violation("remap/apply shape whose flattened root is already stored loads as a different tree: %s"
-                                  % (fails[0],), replay_d, key=KEY_REMAP_ROOT)
-                else:
-                    rep.violation("archive with remap/apply does not load back as the same shape: %s" % (fails[0],),
-                                  replay_d, key=KEY_REMAP)
-            elif named and not load_mism and not bytes_mism:
-                stats["oracle_fail_vars"] += 1
-                rep.violation("archive with named variables does not load back: %s" % (fails[0],), replay_d, key=KEY_VARS)
-            else:
-                rep.violation("saved shape does not load back as the same shape: %s" % (fails[0],), replay_d)
-        elif has_remap and not bytes_mism:
-            stats["remap_bytes_agree"] += 1
-        elif has_remap and bytes_mism and not load_mism:
-            # the serializer cannot be tied to the model on remap/apply shapes while it reads freed nodes / tests the
-            # unflattened root; the bytes it wrote are a different encoding that (this time) loads back correctly
-            stats["remap_bytes_differ_loads_ok"] += 1
-            mism = []
+            kind = "remap" if has_remap else ("vars" if named else "plain")
+            stats["oracle_fail_" + kind] += 1
+            rep.violation("saved shape (%s) does not load back as the same shape: %s" % (kind, fails[0],), replay_d)
         if mism and not fails:
             rep.violation("model/implementation correspondence broken (stream C08.archive): %s" % mism[0][:300],
                           {"kind": "correspondence", "stream": "C08.archive (LibfiveModel/Serialize.lean: walk, serShapes, deserialize)",
                            "case": case, "program": inp.get(case), "verdicts": [v[:600] for v in mism],
-                           "theorems_affected": ["Libfive.C08.archive_roundtrip_partial", "Libfive.C08.tree_roundtrip"]},
+                           "theorems_affected": ["Libfive.C08.archive_roundtrip", "Libfive.C08.tree_roundtrip"]},
                           no_input=True)
 
     # ------------------------------------------------------------ phase 2: malformed streams
@@ -277,7 +243,7 @@ def run(rep, tier, seed, replay=None):
                       {"kind": "harness-crash", "program": mf, "stderr": r2.stderr[-3000:]}, no_input=True)
     else:
         obs2 = split_cases(r2.stdout)
-        v2 = common.run_driver("c08", r2.stdout, timeout=600).splitlines()
+        v2 = common.run_driver("c08", r2.stdout, timeout=2400).splitlines()
         for case, ob in obs2.items():
             kind = mal_kind.get(case, "?")
             mstats["kinds"][kind] = mstats["kinds"].get(kind, 0) + 1
@@ -315,8 +281,8 @@ def run(rep, tier, seed, replay=None):
                     has_remap = any(" remap 1 " in l for l in ob if l.startswith("shape "))
                     if has_remap:
                         asan["crashed_remap"] += 1
-                        rep.violation("AddressSanitizer: serialising a tree with remap/apply reads freed memory (case %s)" % case,
-                                      {"kind": "asan", "case": case, "program": inp.get(case)}, key=KEY_REMAP)
+                        rep.violation("AddressSanitizer/UBSan report while saving or loading an archive with remap/apply (case %s)" % case,
+                                      {"kind": "asan", "case": case, "program": inp.get(case), "observed": ob[-5:]})
                     else:
                         asan["crashed_other"].append(case)
                         rep.violation("AddressSanitizer/UBSan report while saving or loading a remap-free archive (case %s)" % case,
